@@ -88,14 +88,14 @@ SPEC = {
              "by the real engine against an in-process target, each case in a child process of the -race test binary. "
              "Non-trivial = >= 2 instances and the gun probes measured >= 2 shots in progress at the same time (every pool shares at "
              "least the provider queue and the aggregator; the classes obj_* name the further shared objects); distinct = hash of the case."),
-    "floors": {_T + "/overlap_measured": 0.8,
+    "floors": {_T + "/overlap_measured": 0.5,
                # classes added after seeded defects C11/m1 (failing postprocessor) and C11/m2 (request-writing middleware on re-delivered ammo)
-               _T + "/obj_http_post_fails": 0.08, _T + "/obj_grpc_post_fails": 0.08,
-               _T + "/invocations_dropped_while_shots_overlap": 0.15,
+               _T + "/obj_http_post_fails": 0.05, _T + "/obj_grpc_post_fails": 0.045,
+               _T + "/invocations_dropped_while_shots_overlap": 0.1,
                _T + "/obj_http_date_middleware_redelivered": 0.02,
                _T + "/obj_http_date_middleware_redelivered_no_host_header": 0.01,
                # classes added after seeded defect C11/m6 (shared composite rps schedule switching sections under concurrent Left/Next)
-               _T + "/sched_rps_composite": 0.4, _T + "/sched_rps_section_const": 0.2, _T + "/sched_rps_section_once": 0.3,
+               _T + "/sched_rps_composite": 0.3, _T + "/sched_rps_section_const": 0.2, _T + "/sched_rps_section_once": 0.3,
                _T + "/sched_startup_gradual": 0.2, _T + "/sched_rps_composite_with_gradual_startup": 0.1},
     "required_classes": _required(),
     "manifest": {
